@@ -47,3 +47,14 @@ KANI = {
                  'derivative equality run as real code'],
     ),
 }
+
+NATIVE = globals().get('NATIVE', {})
+NATIVE['n_c14_decompress_total'] = dict(
+    crate='cairo-lang-starknet-classes',
+    host='crates/cairo-lang-starknet-classes/src/felt252_vec_compression.rs',
+    harness='native/cairo-lang-starknet-classes/n_c14_decompress_total.rs',
+    props={'C14'},
+    bound='vectors of length <= 4 over 12 boundary felts; truncations / corruptions of 21 valid encodings',
+    functions=[('crates/cairo-lang-starknet-classes/src/felt252_vec_compression.rs', None, 'decompress')],
+)
+VERUS['felt_decompress']['pair'] = 'n_c14_decompress_total'
